@@ -14,12 +14,14 @@ CLAIMED = {
             "CFG dominance + def-use provenance + settings-table cross-check", "§3/C01"),
     "C02": ("error/emission discipline behind 'emitted solutions satisfy every hard constraint': every evaluator yield lies behind the "
             "acceptance test, raising evaluations record failures on all handler paths (evaluator and constraint level), every value the "
-            "COMPLETE-mode pipeline yields originates from an evaluator yield, padding only under best_effort",
+            "COMPLETE-mode pipeline yields originates from an evaluator yield, padding only under best_effort; in exact rational arithmetic the "
+            "threshold operand is a convex combination of the class means with positive weights (reaches 1 only if every class is fully satisfied)",
             "CFG path queries (must-pass-through, handler-to-backedge), accumulator classification, emission-provenance fixpoint over generators", "§3/C02"),
     "C03": ("decides the property's arithmetic clause for all (h, r) at once: under 'every per-constraint fitness is 1.0' the value compared "
-            "with the acceptance threshold is exactly 1.0 and the comparison accepts equality",
+            "with the acceptance threshold is exactly 1.0 and the comparison accepts equality; a tree is marked as reported only together with its yield",
             "abstract interpretation in an exactness domain {ONE, INT(linear form), ROUNDED} with loop and call summaries", "§3/C03"),
-    "C04": ("partial: API filter, helper-symbol containment, error discipline and visitor exhaustiveness behind parser soundness",
+    "C04": ("partial: API filter, helper-symbol containment, error discipline, visitor exhaustiveness, and scanner leaves = input slices with a "
+            "column advance that matches the consumed length",
             "control dependence of yields, writer/reader prefix tables, who-may-call, sibling cross-check", "§3/C04"),
     "C06": ("the state-identity argument of Earley termination: items admitted to a column have a finite, hash/eq-consistent identity, the "
             "de-duplication cannot be bypassed, the column index strictly advances",
